@@ -12,6 +12,7 @@ package preference_reversal
 //@   opaque
 //@ func getCriteriaToReverse
 //@   property C16 C07 C09 C01 C20
+//@   indexsafe
 //@   ensures [selected] fresh(result) && fresh(*result) && len(*result) == len(*criteriaToReverse)
 //@             && forall k int :: 0 <= k && k < len(*criteriaToReverse) ==> (*result)[k].criterion == (*criteriaToReverse)[k] && (*result)[k].valRange != nil
 //@   ensures [declared_range] forall k int :: 0 <= k && k < len(*criteriaToReverse) && (*criteriaToReverse)[k].ValuesRange != nil ==> (*result)[k].valRange == (*criteriaToReverse)[k].ValuesRange
@@ -39,6 +40,7 @@ package preference_reversal
 
 //@ func reverseCriteriaForEachAlternative
 //@   property C16 C09 C07 C01 C20
+//@   indexsafe
 //@   requires forall i int, j int :: 0 <= i && i < j && j < len(*criteriaToReverse) ==> (*criteriaToReverse)[i].criterion.Id != (*criteriaToReverse)[j].criterion.Id
 //@   requires forall k int :: 0 <= k && k < len(*criteriaToReverse) ==> (*criteriaToReverse)[k].valRange != nil
 //@   ensures [all_alternatives] fresh(result0) && fresh(*result0) && len(*result0) == len(resParams.ConsideredAlternatives) + len(resParams.NotConsideredAlternatives)
@@ -93,6 +95,7 @@ package preference_reversal
 
 //@ func updateAlternativesWithReversedCriteriaValues
 //@   property C16 C09 C07 C01 C20
+//@   indexsafe
 //@   requires forall i int, j int :: 0 <= i && i < j && j < len(*criteriaToReverse) ==> (*criteriaToReverse)[i].criterion.Id != (*criteriaToReverse)[j].criterion.Id
 //@   requires forall k int :: 0 <= k && k < len(*criteriaToReverse) ==> (*criteriaToReverse)[k].valRange != nil
 //@   requires distinctAll(resParams.ConsideredAlternatives, resParams.NotConsideredAlternatives)
@@ -106,6 +109,7 @@ package preference_reversal
 
 //@ func prepareReverseResult
 //@   property C16 C07 C09 C01 C20
+//@   indexsafe
 //@   requires len(*reverseResult.alternativesValues) >= len(*criteriaToReverse)
 //@   ensures [report] fresh(result) && len(result) == len(*criteriaToReverse) && forall k int :: 0 <= k && k < len(*criteriaToReverse) ==>
 //@             result[k].Id == (*criteriaToReverse)[k].criterion.Id && result[k].Type == (*criteriaToReverse)[k].criterion.Type
@@ -130,6 +134,7 @@ package preference_reversal
 //@             ((*criteriaToReverse)[k].criterion.ValuesRange != nil ? (*criteriaToReverse)[k].valRange == (*criteriaToReverse)[k].criterion.ValuesRange
 //@               : observedIn(*(*criteriaToReverse)[k].valRange, current, (*criteriaToReverse)[k].criterion.Id))
 //@   property C16 C09 C07 C01 C20
+//@   indexsafe
 //@   requires model.distinctCriteria(current.Criteria) && model.validParams(*listener, current.MethodParameters) && model.coversAll(*listener, current.MethodParameters, current.Criteria)
 //@   requires distinctAll(current.ConsideredAlternatives, current.NotConsideredAlternatives)
 //@   ensures [untouched] result.DMP.Criteria == current.Criteria && result.DMP.MethodParameters == current.MethodParameters
@@ -153,6 +158,7 @@ package preference_reversal
 // the bias takes ordering and split condition exactly as the shared parsers give them (no defaults of its own)
 //@ func parseProps
 //@   property C16 C20 C07 C09 C01
+//@   indexsafe
 //@   ensures [ordering_as_requested] result0 != nil && result0.Ordering == (decoded_has(*props, "Ordering") ? decoded_str(*props, "Ordering") : "")
 //@   ensures [split_as_requested] result1 != nil && result1.Ratio == (decoded_has(*props, "Ratio") ? decoded_real(*props, "Ratio") : 0.0)
 //@             && result1.Min == (decoded_has(*props, "Min") ? decoded_int(*props, "Min") : 0)
@@ -161,6 +167,7 @@ package preference_reversal
 // the registered object holds exactly the collaborators it was built with, each in its own role
 //@ func NewPreferenceReversal
 //@   property C16 C09 C07
+//@   indexsafe
 //@   nopanic
 //@   ensures [wired_as_given] result != nil && fresh(result) && result.orderingResolvers == orderingResolvers
 
@@ -178,5 +185,6 @@ package preference_reversal
 // ---- registered names (what a request must say to select this object; what error messages list)
 //@ func (*PreferenceReversal).Identifier
 //@   property C07 C09 C16 C20 C01 C03 C04 C05 C06 C08 C11 C12 C13 C14 C15 C17 C18 C19
+//@   indexsafe
 //@   nopanic
 //@   ensures [name] result == "preferenceReversal"
